@@ -5,14 +5,29 @@ from c09_util import StopSim
 
 
 class Sim:
-    def __init__(self, n, k, ws=True):
+    def __init__(self, n, k, ws=True, gated=()):
         self.n, self.k = n, k
-        self.tree = StopSim(n, [], ws)
+        self.tree = StopSim(n, list(gated), ws)
         self.sd = False
         self.phase = 0
         self.active = [False] * k
         self.nact = [0] * k
         self.ndeact = [0] * k
+
+    def finish_stop(self):
+        t = self.tree
+        t.quiesce()
+        if self.phase != 1:
+            return
+        x = t.A[0]
+        if not (x.sp == "idle" and not x.running):
+            return
+        for g in range(self.k):
+            if self.active[g]:
+                self.active[g] = False
+                self.ndeact[g] += 1
+        self.phase = 3
+        self.sd = False      # reset(): the gate reopens, sends to stopped actors fail with ErrDead
 
     def drive(self, d):
         t = self.tree
@@ -24,6 +39,8 @@ class Sim:
             return 0 if t.step(("SpawnCheck", d[1], d[2])) else 1
         if kind == "spawn_release":
             ok = t.step(("SpawnInit", d[1])) and t.step(("SpawnAdd", d[1]))
+            if ok:
+                self.finish_stop()
             return 0 if ok else 1
         if kind == "activate":
             g = d[1]
@@ -39,107 +56,139 @@ class Sim:
             self.active[g] = False
             self.ndeact[g] += 1
             return 0
-        if kind in ("tell", "tell_hold"):
+        if kind in ("tell", "tell_hold", "backlog"):
             if self.sd:
                 return 2
             return 0 if t.is_running(d[1]) else 1
+        if kind == "kill":
+            if d[1] == 0:
+                return 1
+            t.step(("StopBegin", d[1]))
+            self.finish_stop()
+            return 0
+        if kind == "release_post":
+            if not t.step(("PostEnd", d[1])):
+                return 1
+            self.finish_stop()
+            return 0
         if kind == "stop":
             if self.phase != 0:
                 return 1
             self.sd = True
+            self.phase = 1
             t.step(("StopBegin", 0))
-            t.quiesce()
-            x = t.A[0]
-            if not (x.sp == "idle" and not x.running):
-                self.phase = 1
-                return 3
-            for g in range(self.k):
-                if self.active[g]:
-                    self.active[g] = False
-                    self.ndeact[g] += 1
-            self.phase = 3
-            self.sd = False      # reset(): the gate reopens, sends to stopped actors fail with ErrDead
+            self.finish_stop()
             return 0
         raise ValueError(d)
 
     def observe(self):
         t = self.tree
-        done = {a for (e, a) in t.trace if e == "PostE"}
-        out = [[int(a in done), int(t.is_running(a))] for a in range(1, self.n)]
+        out = [[sum(1 for (e, b) in t.trace if e == "PostE" and b == a), int(t.is_running(a))] for a in range(1, self.n)]
         out += [[self.nact[g], self.ndeact[g], int(self.active[g])] for g in range(self.k)]
         out.append([self.phase])
         return out
 
 
-COQ = {"spawn": "DSpawn %d %d", "spawn_gated": "DSpawnGated %d %d", "spawn_release": "DSpawnRelease %d", "activate": "DActivate %d",
+COQ = {"kill": "DKill %d", "release_post": "DRelease %d", "backlog": "DTell %d", "spawn": "DSpawn %d %d", "spawn_gated": "DSpawnGated %d %d", "spawn_release": "DSpawnRelease %d", "activate": "DActivate %d",
        "grain_pill": "DUserPill %d", "grain_pill2": "DUserPill2 %d", "tell": "DTell %d", "tell_hold": "DTell %d", "stop": "DStop"}
 
 
 def coq_action(d):
+    if d[0] == "backlog":
+        return "DTell %d" % d[1]
     return COQ[d[0]] % tuple(d[1:])
 
 
 CORPUS = [
     # three-level tree, two grains (one poisoned by user code before), sends before and after the gate
-    (5, 2, [["spawn", 0, 1], ["spawn", 1, 2], ["spawn", 1, 3], ["spawn", 3, 4], ["activate", 0], ["activate", 1], ["grain_pill2", 1],
-            ["tell", 4], ["stop"], ["tell", 4], ["tell", 1], ["activate", 0], ["grain_pill", 0]], "plain"),
-    # a handler is still running when Stop is called and when it returns
-    (3, 1, [["spawn", 0, 1], ["spawn", 1, 2], ["activate", 0], ["tell_hold", 2], ["stop"], ["tell", 2]], "handler-held"),
+    (5, 2, [], [], [["spawn", 0, 1], ["spawn", 1, 2], ["spawn", 1, 3], ["spawn", 3, 4], ["activate", 0], ["activate", 1], ["grain_pill2", 1],
+                    ["tell", 4], ["stop"], ["tell", 4], ["tell", 1], ["activate", 0], ["grain_pill", 0]], "plain"),
+    # a handler is still running, with a backlog queued behind it, when Stop is called and when it returns
+    (3, 1, [], [], [["spawn", 0, 1], ["spawn", 1, 2], ["activate", 0], ["tell_hold", 2], ["backlog", 2, 4], ["stop"], ["tell", 2]], "handler-held-backlog"),
     # a SpawnChild is in flight (PreStart blocked) while the system stops
-    (4, 0, [["spawn", 0, 1], ["spawn", 1, 2], ["spawn_gated", 2, 3], ["stop"], ["spawn_release", 3], ["tell", 3]], "spawn-in-flight"),
+    (4, 0, [], [], [["spawn", 0, 1], ["spawn", 1, 2], ["spawn_gated", 2, 3], ["stop"], ["spawn_release", 3], ["tell", 3]], "spawn-in-flight"),
     # stop of an empty system, twice
-    (1, 1, [["stop"], ["stop"], ["activate", 0]], "empty"),
+    (1, 1, [], [], [["stop"], ["stop"], ["activate", 0]], "empty"),
+    # an individual stop is inside the actor's PostStop when the system is stopped
+    (4, 1, [2], [], [["spawn", 0, 1], ["spawn", 1, 2], ["spawn", 2, 3], ["activate", 0], ["kill", 2], ["stop"], ["release_post", 2], ["tell", 1]], "kill-in-flight"),
+    # the same with the PoisonPill-less variant: the parent is killed, its child's PostStop is held
+    (4, 0, [3], [], [["spawn", 0, 1], ["spawn", 1, 2], ["spawn", 2, 3], ["kill", 1], ["stop"], ["release_post", 3]], "parent-kill-in-flight"),
+    # a grain's passivation-driven OnDeactivate is still executing when Stop is called
+    (2, 2, [], [1], [["spawn", 0, 1], ["activate", 0], ["activate", 1], ["stop"]], "grain-passivating"),
 ]
 
 
 def gen_scenarios(ctx, ws=True):
     rng = random.Random(ctx.seed * 6151 + 17)
-    n_sc = 200 if ctx.thorough else 24
+    n_sc = 200 if ctx.thorough else 26
     out = []
 
-    def build(n, k, script, tag):
-        sim = Sim(n, k, ws)
+    def build(n, k, gated, passg, script, tag):
+        sim = Sim(n, k, ws, gated)
         acts, expect = [], []
         for d in script:
             sim.drive(d)
             acts.append(d)
             expect.append(sim.observe())
-        return {"n": n, "k": k, "actions": acts, "expect": expect, "tag": tag}
-    for n, k, script, tag in CORPUS:
-        out.append(build(n, k, script, tag))
+        return {"n": n, "k": k, "gated": gated, "pass_grains": passg, "actions": acts, "expect": expect, "tag": tag}
+    for n, k, gated, passg, script, tag in CORPUS:
+        out.append(build(n, k, gated, passg, script, tag))
     while len(out) < n_sc:
         n = rng.choice([2, 4, 6, 9, 12])
         k = rng.choice([0, 1, 3, 5])
-        script = []
+        gated = [a for a in range(1, n) if rng.random() < 0.25] if rng.random() < 0.5 else []
+        # at most one grain is caught inside its passivation-driven OnDeactivate (the manager is one goroutine),
+        # and only when no PostStop gate can hold Stop back before it reaches the grains
+        passg = [rng.randrange(k)] if (k and not gated and rng.random() < 0.5) else []
+        sim = Sim(n, k, ws, gated)
+        acts, expect = [], []
+
+        def do(d):
+            sim.drive(d)
+            acts.append(d)
+            expect.append(sim.observe())
         shape = rng.choice(["random", "chain", "star", "wide"])
         for c in range(1, n):
             p = {"random": rng.randrange(c), "chain": c - 1, "star": 0 if c == 1 else 1, "wide": 0}[shape]
-            script.append(["spawn", p, c])
+            do(["spawn", p, c])
         for g in range(k):
-            if rng.random() < 0.8:
-                script.append(["activate", g])
-        extra = []
+            if g in passg or rng.random() < 0.8:
+                do(["activate", g])
         for _ in range(rng.choice([0, 2, 5])):
             r = rng.random()
-            if r < 0.5 and n > 1:
-                extra.append(["tell", rng.randrange(1, n)])
+            if r < 0.35 and n > 1:
+                do(["tell", rng.randrange(1, n)])
+            elif r < 0.5 and n > 1:
+                do(["kill", rng.randrange(1, n)])
             elif r < 0.7 and k:
-                extra.append([rng.choice(["grain_pill", "grain_pill2"]), rng.randrange(k)])
+                g = rng.randrange(k)
+                if g not in passg:
+                    do([rng.choice(["grain_pill", "grain_pill2"]), g])
             elif k:
-                extra.append(["activate", rng.randrange(k)])
-        script += extra
-        if n > 1 and rng.random() < 0.3:
-            script.append(["tell_hold", rng.randrange(1, n)])
-        script.append(["stop"])
+                g = rng.randrange(k)
+                if g not in passg:
+                    do(["activate", g])
+        if n > 1 and rng.random() < 0.4:
+            a = rng.randrange(1, n)
+            if sim.tree.is_running(a):
+                do(["tell_hold", a])
+                do(["backlog", a, rng.choice([2, 3, 5])])
+        do(["stop"])
+        # release what holds the stop (random order), until it is through
+        for _ in range(2 * n):
+            blocked = [a for a in range(n) if sim.tree.A[a].sp == "post" and a in sim.tree.gated]
+            if not blocked:
+                break
+            do(["release_post", rng.choice(blocked)])
         for _ in range(rng.choice([1, 3])):
             r = rng.random()
             if r < 0.6 and n > 1:
-                script.append(["tell", rng.randrange(1, n)])
+                do(["tell", rng.randrange(1, n)])
             elif r < 0.8 and k:
-                script.append(["activate", rng.randrange(k)])
+                do(["activate", rng.randrange(k)])
             elif k:
-                script.append(["grain_pill", rng.randrange(k)])
+                do(["grain_pill", rng.randrange(k)])
             else:
-                script.append(["stop"])
-        out.append(build(n, k, script, "gen"))
+                do(["stop"])
+        out.append({"n": n, "k": k, "gated": gated, "pass_grains": passg, "actions": acts, "expect": expect, "tag": "gen"})
     return out
